@@ -956,6 +956,17 @@ func (x *Exec) specCall(env *SpecEnv, c ECall) SpecVal {
 		return SpecVal{Seq: &SeqExpr{Len: Sub(s.Len, x.intLit(1, x.idxSort())), At: func(i Term) Term {
 			return Ite(Lt(i, k), s.At(i), s.At(Add(i, x.intLit(1, x.idxSort()))))
 		}, Elem: s.Elem, Sort: s.Sort}}
+	case "swap":
+		// swap(s, i, j): the sequence with positions i and j exchanged
+		sq := x.spec(env, c.Args[0]).Seq
+		i := x.specIdx(env, c.Args[1])
+		j := x.specIdx(env, c.Args[2])
+		if sq == nil {
+			unsupported("swap on non-seq")
+		}
+		return SpecVal{Seq: &SeqExpr{Len: sq.Len, At: func(k Term) Term {
+			return Ite(Eq(k, i), sq.At(j), Ite(Eq(k, j), sq.At(i), sq.At(k)))
+		}, Elem: sq.Elem, Sort: sq.Sort}}
 	case "seqof":
 		v := x.spec(env, c.Args[0])
 		return x.sliceToSeq(env.st, v)
